@@ -50,14 +50,15 @@ fn stub_handle_rx_mc<const N: usize, const D: usize>(
     unsafe {
         G_RX_CALLS.v += 1;
         let pick: u8 = kani::any();
-        match pick % 4 {
-            0 => mac::Response::NoUpdate,
-            1 => {
+        // (frames that change nothing -- NoUpdate, which keeps the window listening -- are the
+        // subject of async_send_faults; leaving them out here keeps the listen loops at one pass)
+        match pick % 2 {
+            0 => {
                 // multicast port: unicast session untouched
-                mac::Response::Multicast(match pick >> 2 & 3 {
-                    0 => multicast::Response::DownlinkReceived { group_id: any_group(), fcnt: kani::any() },
-                    1 => multicast::Response::SessionExpired { group_id: any_group() },
-                    _ => multicast::Response::NoUpdate,
+                mac::Response::Multicast(if pick & 2 == 0 {
+                    multicast::Response::DownlinkReceived { group_id: any_group(), fcnt: kani::any() }
+                } else {
+                    multicast::Response::SessionExpired { group_id: any_group() }
                 })
             }
             _ => {
@@ -65,10 +66,10 @@ fn stub_handle_rx_mc<const N: usize, const D: usize>(
                     mac::Response::SessionExpired
                 } else {
                     G_FCNT.v += 1;
-                    match pick >> 2 & 3 {
-                        0 => mac::Response::DownlinkReceived(kani::any()),
-                        1 => mac::Response::Multicast(multicast::Response::NewSession { group_id: any_group() }),
-                        _ => mac::Response::Multicast(multicast::Response::NoUpdate),
+                    if pick & 2 == 0 {
+                        mac::Response::DownlinkReceived(kani::any())
+                    } else {
+                        mac::Response::Multicast(multicast::Response::NewSession { group_id: any_group() })
                     }
                 }
             }
@@ -129,8 +130,8 @@ fn async_mc_answer_counter() {
     }
 }
 
-//@h id=async_send_faults_mc props=C06 tier=quick build=dev-eu868-mc cost=200 timeout=1800
-//@bounds `multicast` feature: as async_send_faults, with receive outcomes extended by multicast downlinks (which leave the unicast session untouched) and remote-setup commands that need no answer (accepted unicast downlinks); responses requesting an answer uplink are covered by async_mc_answer_counter
+//@h id=async_send_faults_mc props=C06 tier=thorough build=dev-eu868-mc cost=2000 timeout=5400
+//@bounds `multicast` feature: as async_send_faults, with receive outcomes extended by multicast downlinks (which leave the unicast session untouched) and remote-setup commands that need no answer (accepted unicast downlinks), every received frame being one of these or a timeout (frames the MAC ignores: async_send_faults); responses requesting an answer uplink are covered by async_mc_answer_counter
 //@encodes async_device::Device::{send, rx_downlink, rx_listen, handle_mac_response}, From<mac::Response> for SendResponse
 //@assumes as async_send_faults; multicast::Response::is_transmit_request stubbed to false (the MAC contract of this harness produces no transmit request)
 #[kani::proof]
@@ -141,8 +142,29 @@ fn async_mc_answer_counter() {
 #[kani::stub(Mac::get_fcnt_up, stub_get_fcnt_up)]
 #[kani::stub(Mac::multicast_setup_send, stub_multicast_setup_send)]
 #[kani::stub(multicast::Response::is_transmit_request, stub_no_transmit_request)]
-#[kani::unwind(6)]
+#[kani::unwind(3)]
 fn async_send_faults_mc() {
+    send_mc_step(true);
+}
+
+//@h id=async_send_mc props=C06 tier=quick build=dev-eu868-mc cost=200 timeout=1800
+//@bounds as async_send_faults_mc on a fault-free radio (radio faults with the multicast feature: thorough tier; without it: async_send_faults)
+//@encodes async_device::Device::{send, rx_downlink, rx_listen, handle_mac_response}, From<mac::Response> for SendResponse
+//@assumes as async_send_faults_mc
+#[kani::proof]
+#[kani::stub(Mac::send, stub_send)]
+#[kani::stub(Mac::handle_rx, stub_handle_rx_mc)]
+#[kani::stub(Mac::rx2_complete, stub_rx2_complete)]
+#[kani::stub(Mac::get_rx_delay, stub_get_rx_delay)]
+#[kani::stub(Mac::get_fcnt_up, stub_get_fcnt_up)]
+#[kani::stub(Mac::multicast_setup_send, stub_multicast_setup_send)]
+#[kani::stub(multicast::Response::is_transmit_request, stub_no_transmit_request)]
+#[kani::unwind(3)]
+fn async_send_mc() {
+    send_mc_step(false);
+}
+
+fn send_mc_step(faults: bool) {
     let start: u32 = kani::any();
     unsafe {
         G_FCNT.v = start;
@@ -150,7 +172,7 @@ fn async_send_faults_mc() {
         G_RX_CALLS.v = 0;
         G_ANS_BUILT.v = 0;
     }
-    let radio = MRadio { calls: 0, fail_at: kani::any(), tx_calls: 0, tx_ok: 0 };
+    let radio = MRadio { calls: 0, fail_at: if faults { kani::any() } else { usize::MAX }, tx_calls: 0, tx_ok: 0 };
     let mut dev: Device<MRadio, MTimer, NoRng, 256, 1> =
         Device::new(region::Configuration::new(region::Region::EU868), radio, MTimer, NoRng);
     let payload = [0u8; 4];
